@@ -947,6 +947,7 @@ def run(tier, replay):
             continue
         V = analyse(c, case, outs)
         c.bump("lockstep_steps_compared", V.steps)
+        c.count(V.steps)
         c.bump("boundary_hits", V.bounces)
         c.bump("periodic_wraps", V.wraps)
         c.bump("repeated_steps_checked", V.repeats_checked)
